@@ -21,7 +21,7 @@ ASSUMPTIONS = [
   "sequence entries are compared with ISD.from_model(doc, s, sig) exactly and with the uncached snapshot modulo content-less regions (C14's relaxation)",
 ]
 REQUIRED = ["sig:lists", "probe:compared", "probe:before-first", "refchange:checked", "sequence:entries", "class:anim-on-offset-element",
-            "class:timed-region"]
+            "class:timed-region", "class:gating-region"]
 SHARD_TIMEOUT = {"quick": 900, "thorough": 7200}
 N = {"quick": 25, "thorough": 1250}
 KNOWN = "D-SIG-ANIM"
@@ -275,6 +275,15 @@ def run(ctx, params):
   for i in range(params["n"]):
     rng = ctx.rng("doc", params["shard"], i)
     adoc0, classes = model_docs.generate(rng, "isd", None, p_anim=0.45, p_time=0.7, p_region_time=0.5)
+    # regions that paint nothing on their own but gate their content with begin/end instants no other element uses
+    # (added after seeded change s-C02-2 was only caught by the thorough tier)
+    for r in adoc0.regions:
+      if rng.random() < 0.4:
+        r.styles["ShowBackground"] = ("E", "ShowBackgroundType", "whenActive")
+        r.anims = [a for a in r.anims if a[0] not in ("BackgroundColor", "Display", "Opacity", "ShowBackground", "Visibility")]
+        r.begin = rng.choice([None, Fraction(7, 6), Fraction(19, 6), Fraction(1, 7)])
+        r.end = rng.choice([None, Fraction(29, 6), Fraction(41, 6)])
+        classes.add("gating-region")
     try:
       check_doc(ctx, adoc0, classes)
     except Exception as e:  # pylint: disable=broad-except
